@@ -94,3 +94,26 @@ pub fn prepared_from(
     p.calls = collect_calls(&p.prog);
     Ok(p)
 }
+
+/// A program that names every builtin alias and binds each to its documented definition:
+/// `fn idK(x: A) -> A { x }` and, in main, `let wK: A = witness::WK; let dK: DEF = idK(wK);`.
+pub fn alias_table_prog() -> Program {
+    let mut items = vec![];
+    let mut stmts = vec![];
+    for (k, name) in BUILTIN_ALIASES.iter().enumerate() {
+        let def = builtin_alias(name).expect("table covers every builtin alias");
+        let alias = Ty::Alias(name.to_string());
+        items.push(Item::Func(Func {
+            name: format!("id{k}"),
+            params: vec![("x".into(), alias.clone())],
+            ret: Some(alias.clone()),
+            body: Expr::block(vec![], Some(Expr::var("x"))),
+        }));
+        stmts.push(let_(&format!("w{k}"), alias, Expr::Witness(format!("W{k}"))));
+        stmts.push(let_(&format!("d{k}"), def, Expr::call(CallName::Fn(format!("id{k}")), vec![Expr::var(&format!("w{k}"))])));
+    }
+    items.push(main_fn(stmts));
+    let mut p = Program { items, holes: vec![] };
+    p.number_calls();
+    p
+}
